@@ -13,6 +13,38 @@ pub fn files_json(files: &[(String, String)]) -> serde_json::Value
 	json!(files.iter().map(|(n, s)| json!({"file": n, "source": s})).collect::<Vec<_>>())
 }
 
+/// lex .. analyse by hand (as Compiler::analyze_and_resolve does, without
+/// sorting and without IR generation): does any node still carry an error?
+fn analysed_tree_carries_an_error(src: &str) -> bool
+{
+	use penne::alpha::*;
+	let d = parser::parse(lexer::lex(src, "main.pn"));
+	let d = expander::expand_one("main.pn", d);
+	let d = scoper::analyze(d);
+	let mut typer = typer::Typer::default();
+	let mut analyzer = analyzer::Analyzer::default();
+	for x in &d
+	{
+		typer.forward_declare_structure(x);
+	}
+	let d: Vec<_> = d.into_iter().map(|x| typer.declare(x)).collect();
+	for x in &d
+	{
+		analyzer.declare(x);
+	}
+	for x in d
+	{
+		let x = typer.analyze(x);
+		let x = analyzer.analyze(x);
+		let dump = format!("{:?}", x);
+		if dump.contains("Error(")
+		{
+			return true;
+		}
+	}
+	false
+}
+
 /// the source without its functions (definitions and heads)
 fn strip_functions(src: &str) -> String
 {
@@ -122,12 +154,24 @@ fn judge(case: &Case, out: &mut CaseOut, want_sample: bool)
 		let stripped: Vec<(String, String)> = case.files.iter().map(|(n, s)| (n.clone(), strip_functions(s))).collect();
 		let o2 = alpha::compile_modules(&stripped, alpha::Options::default());
 		let among_declarations = !o2.ok && o2.codes.is_empty() && o2.internal_error.is_none();
+		// And is the error still somewhere in the analysed tree (then the
+		// resolver drops it), or is it gone before resolution (the recorded
+		// finding: found only in a discarded pre-analysis pass)?
+		let carried = case.files.len() == 1 && analysed_tree_carries_an_error(&case.files[0].1);
+		let class = if among_declarations
+		{
+			"among the declarations"
+		}
+		else if carried
+		{
+			"an error in the analysed tree is not reported"
+		}
+		else
+		{
+			"needs a function body"
+		};
 		out.fail(
-			format!(
-				"failure with an empty list of errors (stage {}) [{}]",
-				o.stage,
-				if among_declarations { "among the declarations" } else { "needs a function body" }
-			),
+			format!("failure with an empty list of errors (stage {}) [{}]", o.stage, class),
 			json!({"files": files_json(&case.files)}),
 		);
 	}
@@ -245,6 +289,66 @@ impl Stream for Exhaustive
 	}
 }
 
+/// nesting up to the stated bound (256) in every recursive construct
+struct DeepNesting;
+const NEST_KINDS: &[&str] = &["blocks", "ifs", "else-if chain", "parentheses", "unary minus", "negation", "address-of", "index", "calls", "array type", "pointer type", "array literal"];
+const NEST_DEPTHS: &[usize] = &[8, 16, 24, 32, 48, 64, 96, 128, 192, 256];
+impl Stream for DeepNesting
+{
+	fn name(&self) -> String
+	{
+		"deep-nesting".into()
+	}
+	fn count(&self, _tier: Tier) -> u64
+	{
+		(NEST_KINDS.len() * NEST_DEPTHS.len()) as u64
+	}
+	fn exhaustive(&self) -> bool
+	{
+		true
+	}
+	fn crash_sig_per_stream(&self) -> Option<bool>
+	{
+		Some(true)
+	}
+	fn timeout(&self) -> std::time::Duration
+	{
+		std::time::Duration::from_secs(60)
+	}
+	fn run(&self, idx: u64, _c: &mut Choices, ctx: &RunCtx) -> CaseOut
+	{
+		let mut out = CaseOut::default();
+		let kind = NEST_KINDS[idx as usize / NEST_DEPTHS.len()];
+		let d = NEST_DEPTHS[idx as usize % NEST_DEPTHS.len()];
+		note_case_class(&format!("{} nested {} deep", kind, d));
+		let rep = |s: &str| s.repeat(d);
+		let src = match kind
+		{
+			"blocks" => format!("fn main() -> i32\n{{\n\tvar x: i32 = 0;\n{}x = x + 1;\n{}\treturn: x\n}}\n", rep("{\n"), rep("}\n")),
+			"ifs" => format!("fn main() -> i32\n{{\n\tvar x: i32 = 0;\n{}x = x + 1;\n{}\treturn: x\n}}\n", rep("if x == 0\n{\n"), rep("}\n")),
+			"else-if chain" => format!("fn main() -> i32\n{{\n\tvar x: i32 = 0;\n\tif x == 1\n\t{{\n\t}}\n{}\treturn: x\n}}\n", rep("\telse if x == 2\n\t{\n\t\tx = 3;\n\t}\n")),
+			"parentheses" => format!("fn main() -> i32\n{{\n\tvar x: i32 = {}1{};\n\treturn: x\n}}\n", rep("("), rep(")")),
+			"unary minus" => format!("fn main() -> i32\n{{\n\tvar y: i32 = 1;\n\tvar x: i32 = {}y;\n\treturn: x\n}}\n", rep("- ")),
+			"negation" => format!("fn main() -> i32\n{{\n\tvar y: u32 = 1;\n\tvar x: u32 = {}y;\n\treturn: 0\n}}\n", rep("!")),
+			"address-of" => format!("fn main() -> i32\n{{\n\tvar y: i32 = 1;\n\tvar x = {}y;\n\treturn: 0\n}}\n", rep("&")),
+			"index" => format!("fn main() -> i32\n{{\n\tvar a: [2]usize = [0, 1];\n\tvar x: usize = {}0{};\n\treturn: 0\n}}\n", rep("a["), rep("]")),
+			"calls" => format!("fn f(v: i32) -> i32\n{{\n\treturn: v\n}}\n\nfn main() -> i32\n{{\n\tvar x: i32 = {}1{};\n\treturn: x\n}}\n", rep("f("), rep(")")),
+			"array type" => format!("fn main() -> i32\n{{\n\tvar x: {}i32;\n\treturn: 0\n}}\n", rep("[1]")),
+			"pointer type" => format!("fn f(x: {}i32)\n{{\n}}\n", rep("&")),
+			_ => format!("fn main() -> i32\n{{\n\tvar x = {}1{};\n\treturn: 0\n}}\n", rep("["), rep("]")),
+		};
+		let case = Case {
+			files: vec![("main.pn".into(), src)],
+			kind: "deep-nesting",
+			planted_at: None,
+		};
+		judge(&case, &mut out, ctx.want_sample && d <= 16);
+		out.key = idx;
+		out.nontrivial = true;
+		out
+	}
+}
+
 /// fixed inputs for recorded defects, so that they stay visible while the
 /// generators avoid them
 const PROBES: &[(&str, &[(&str, &str)])] = &[
@@ -338,7 +442,7 @@ impl Check for C02
 	}
 	fn rule(&self) -> String
 	{
-		"valid UTF-8 sources <= 64 KiB, nesting <= 256: (a) repository corpus files (357) pristine, byte-mutated or with 1-3 token edits (delete, duplicate, swap, replace by / insert a random Penne token, stray bracket); (b) generated well-typed programs in plain or random layout with 1-3 token edits; (c) token soup over 67 Penne tokens, bare, inside a function body or in expression position; (d) EVERY token sequence of length <= 3 (quick) / <= 4 (thorough) over a 24-token alphabet in three templates (top level, function body, initialiser expression) — exhaustive; (f) random statement trees of the goto / scope / loop-placement checks (C04-C06 generators: labels, gotos, declarations, uses, blocks, naked and braced branches, loops) and (g) random dependency graphs of constants and structures with and without cycles (C11 generator), all compiled down to IR; (e) sets of 2-3 modules drawn from the other streams with imports of each other, of themselves and of a missing file, compiled through one Compiler in the order of src/main.rs. Oracle: the whole pipeline lex..generate_ir..link in an isolated worker ends in success with IR or in failure with >= 1 diagnostic; a panic, LLVM abort, stack overflow, segfault (by site), an Err(anyhow) from the generator, or an empty error list is a failure. Non-trivial: the input got past lexing and parsing (failure, if any, is semantic), or it is a module set; distinct by source.".into()
+		"valid UTF-8 sources <= 64 KiB, nesting <= 256: (a) repository corpus files (357) pristine, byte-mutated or with 1-3 token edits (delete, duplicate, swap, replace by / insert a random Penne token, stray bracket); (b) generated well-typed programs in plain or random layout with 1-3 token edits; (c) token soup over 67 Penne tokens, bare, inside a function body or in expression position; (d) EVERY token sequence of length <= 3 (quick) / <= 4 (thorough) over a 24-token alphabet in three templates (top level, function body, initialiser expression) — exhaustive; (f) random statement trees of the goto / scope / loop-placement checks (C04-C06 generators: labels, gotos, declarations, uses, blocks, naked and braced branches, loops) and (g) random dependency graphs of constants and structures with and without cycles (C11 generator), all compiled down to IR; (h) 12 recursive constructs (blocks, ifs, else-if chains, parentheses, unary operators, address-of, indices, calls, array and pointer types, array literals) nested 8-256 deep — exhaustive over 10 depths; (e) sets of 2-3 modules drawn from the other streams with imports of each other, of themselves and of a missing file, compiled through one Compiler in the order of src/main.rs. Oracle: the whole pipeline lex..generate_ir..link in an isolated worker ends in success with IR or in failure with >= 1 diagnostic; a panic, LLVM abort, stack overflow, segfault (by site), an Err(anyhow) from the generator, or an empty error list is a failure. Non-trivial: the input got past lexing and parsing (failure, if any, is semantic), or it is a module set; distinct by source.".into()
 	}
 	fn assumptions(&self) -> Vec<String>
 	{
@@ -357,6 +461,7 @@ impl Check for C02
 			Box::new(ModuleSets),
 			Box::new(StructuredBodies),
 			Box::new(DeclarationGraphs),
+			Box::new(DeepNesting),
 			Box::new(Probes),
 		]
 	}
